@@ -1,0 +1,35 @@
+//go:build verif
+// +build verif
+
+package jet
+
+import (
+	"encoding/json"
+	"os"
+	"sync"
+	"testing"
+)
+
+// With the "verif" build tag and VERIF_TRACE_FILE set, the package's own tests become trace
+// sources: every interpreter event is appended to that file as one JSON object per line.
+func TestMain(m *testing.M) {
+	if path := os.Getenv("VERIF_TRACE_FILE"); path != "" {
+		f, err := os.Create(path)
+		if err != nil {
+			panic(err)
+		}
+		var mu sync.Mutex
+		enc := json.NewEncoder(f)
+		VerifSetTracer(func(e VerifEvent) {
+			mu.Lock()
+			enc.Encode(map[string]interface{}{"rt": e.Rt, "seq": e.Seq, "ev": e.Ev, "depth": e.Depth, "ctx": e.Ctx,
+				"content": e.Content, "writer": e.Writer, "outlen": e.OutLen, "args": e.Args})
+			mu.Unlock()
+		})
+		code := m.Run()
+		VerifSetTracer(nil)
+		f.Close()
+		os.Exit(code)
+	}
+	os.Exit(m.Run())
+}
